@@ -75,6 +75,34 @@ func writeCorpus(dir string) {
 			panic(err)
 		}
 	}
+	// life-cycle states and sub-resource writes
+	statusBadGate := base("https://127.0.0.1:6443")
+	statusBadGate.Annotations = &[][2]string{{hx(gateKey), hx("NoSuchFeature=true")}}
+	terminating := withSchema(SchemaW{Name: hx("a"), GMax: i32(5)})
+	terminating.Life = &LifeW{Terminating: true, Finalizers: []string{hx("example.com/cleanup")}, ResourceVersion: hx("7"), Generation: 2, UID: "uid-1"}
+	oldTerminating := base("https://127.0.0.1:6443")
+	oldTerminating.Life = &LifeW{Terminating: true, Finalizers: []string{hx("example.com/cleanup"), hx("proxy.kubegateway.io/drain")}, ResourceVersion: hx("6"), Generation: 2, UID: "uid-1"}
+	slash := base("https://127.0.0.1:6443/")
+	slash.Servers = append(slash.Servers, ServerW{Endpoint: hx("https://LOCALHOST:443")})
+	slash.Policies[0].UpstreamSubset = []string{hx("https://127.0.0.1:6443/")}
+	slash.Policies = append(slash.Policies, PolicyW{Strategy: hx("RoundRobin"), NRules: 1, UpstreamSubset: []string{hx("https://LOCALHOST:443")}})
+	states := map[string]struct {
+		origin string
+		cs     Case
+	}{
+		"status-write-bad-feature-gate": {"findings/C16-status-write-unvalidated-annotations (fixed 9342ba6): a write through the status subresource stored an unparsable feature-gate annotation; must be REFUSED",
+			Case{Cluster: statusBadGate, Prev: &oldObj, Op: "status"}},
+		"terminating-update-global-without-local": {"seeded change C16 round 6/m2: the plugin ignored objects with a deletionTimestamp; an update of a terminating cluster with globalMaxRequestsInflight but no maxRequestsInflight was admitted and Sync panicked",
+			Case{Cluster: terminating, Prev: &oldTerminating, Op: "update"}},
+		"endpoint-trailing-slash-in-subset": {"seeded change C16 round 6/m1: endpoints were kept under the string without trailing slash while policies kept the exact string: Pop found no endpoint",
+			Case{Cluster: slash}},
+	}
+	for name, f := range states {
+		b, _ := json.MarshalIndent(map[string]interface{}{"origin": f.origin, "case": f.cs}, "", " ")
+		if err := os.WriteFile(filepath.Join(dir, name+".json"), b, 0o644); err != nil {
+			panic(err)
+		}
+	}
 	// name conflicts across clusters, differing in case
 	lowerName := base("https://127.0.0.1:6443")
 	lowerName.Name = hx("api.example.com")
